@@ -26,7 +26,7 @@ func init() {
 	})
 	register(&Rule{
 		ID: "R17.5", Props: []string{"C17"}, Engine: "lockstate + order (path automaton)",
-		Text: "deduplication protocol: the in-flight map is accessed only under the replicator's mutex, which is released on every exit and not held while waiting; a caller that registered an entry removes it, stores success (= the copy's error is nil) and closes the finished channel, in this order, exactly once, on every path (also when the copy failed); a waiter reads success only after receiving from finished and skips the digest only when success is true – otherwise it retries",
+		Text: "deduplication protocol: the in-flight map is accessed only under the replicator's mutex, which is released on every exit and not held while waiting; a caller that registered an entry removes it and stores success (= the copy's error is nil) – both before it closes the finished channel – exactly once, on every path (also when the copy failed); a waiter reads success only after receiving from finished and skips the digest only when success is true – otherwise it retries",
 		Floor: 6, MustExist: true, Run: runR175,
 	})
 	register(&Rule{
@@ -385,15 +385,19 @@ func runR175(c *Ctx) {
 		c.Broken("deduplicatingBlobReplicator not found")
 		return
 	}
-	lock, m := structField(n, "lock"), structField(n, "inFlightReplications")
+	lock := mutexField(n, "lock")
+	var m *types.Var
+	if ms := fieldsWhere(n, func(f *types.Var) bool { _, ok := f.Type().Underlying().(*types.Map); return ok }); len(ms) == 1 {
+		m = ms[0]
+	}
 	if lock == nil || m == nil {
-		c.Broken("deduplicatingBlobReplicator.lock / inFlightReplications not found")
+		c.Broken("deduplicatingBlobReplicator: mutex / in-flight map field not found")
 		return
 	}
 	ls := &LockSpec{RuleID: c.rule.ID, Pkg: c.Pkg(replicationRel), Lock: lock,
-		Guards:           []LockGuard{{Name: "inFlightReplications", Field: m, Req: 2, ReadReq: 2}},
+		Guards:           []LockGuard{{Name: "in-flight map", Field: m, Req: 2, ReadReq: 2}},
 		InScope:          func(fd *ast.FuncDecl, recv *types.Named) bool { return recv != nil && recv.Obj() == n.Obj() },
-		IsEntry:          func(fd *ast.FuncDecl) bool { return true },
+		IsEntry:          func(fd *ast.FuncDecl) bool { return fd.Name.IsExported() },
 		NoBlockWhileHeld: true,
 	}
 	la := newLockAnalysis(c.Program, ls)
@@ -403,12 +407,12 @@ func runR175(c *Ctx) {
 	// registered entry: MapUpdate into the map; then delete · store success · close(finished) on every path
 	isMap := func(v ssa.Value) bool {
 		f, _ := loadedField(v)
-		return f != nil && f.Name() == "inFlightReplications"
+		return f != nil && f == m
 	}
 	bad := ""
 	var badPos token.Pos
 	nreg := 0
-	// states: 0 not registered; 1 registered; 2 removed; 3 success stored; 4 closed
+	// state bits: 1 registered, 2 removed, 4 outcome stored, 8 closed
 	explorePaths(&pathSpec{Fn: fn, Init: 0,
 		Step: func(st int, ev pathEvent) int {
 			if ev.Ins == nil {
@@ -423,38 +427,41 @@ func runR175(c *Ctx) {
 			case *ssa.Call:
 				if bi, ok := x.Call.Value.(*ssa.Builtin); ok {
 					if bi.Name() == "delete" && isMap(x.Call.Args[0]) {
-						if st != 1 {
+						if st&1 == 0 || st&2 != 0 {
 							bad, badPos = "an in-flight entry is removed that this caller did not register (or twice)", x.Pos()
 						}
-						return 2
+						return st | 2
 					}
 					if bi.Name() == "close" {
-						if st != 3 {
+						if st&1 != 0 && st&(2|4) != (2 | 4) {
 							bad, badPos = "the finished channel is closed before the entry was removed and the outcome stored: a waiter could read a stale outcome, or find the entry again and wait on a closed channel forever", x.Pos()
 						}
-						return 4
+						if st&8 != 0 {
+							bad, badPos = "the finished channel is closed twice", x.Pos()
+						}
+						return st | 8
 					}
 				}
 			case *ssa.Store:
 				if f := fieldOf(x.Addr); f != nil && f.Name() == "success" {
-					if st != 2 {
-						bad, badPos = "the outcome is stored before the entry was removed from the in-flight map", x.Pos()
+					if st&8 != 0 {
+						bad, badPos = "the outcome is stored after the finished channel was closed", x.Pos()
 					}
 					// value: err == nil
 					okVal := false
-					if bo, ok := x.Val.(*ssa.BinOp); ok && bo.Op == token.EQL && isNilConst(bo.Y) && isErrorType(bo.X.Type()) {
+					if bo, ok := x.Val.(*ssa.BinOp); ok && bo.Op == token.EQL && isErrorType(bo.X.Type()) && (isNilConst(bo.Y) || isNilConst(bo.X)) {
 						okVal = true
 					}
 					if !okVal {
 						bad, badPos = "the outcome stored is not `the copy's error is nil`", x.Pos()
 					}
-					return 3
+					return st | 4
 				}
 			}
 			return st
 		},
 		AtReturn: func(st int, r *ssa.Return, _ map[int]bool) {
-			if st >= 1 && st <= 3 {
+			if st&1 != 0 && st&(2|4|8) != (2 | 4 | 8) {
 				bad, badPos = "a path returns after registering an in-flight entry without removing it, storing the outcome and closing the channel: waiters for this object would block forever", r.Pos()
 			}
 		}})
@@ -562,7 +569,7 @@ func runR176(c *Ctx) {
 	// ExistenceCache guarded by its lock
 	ec := c.LookupType(digestRel, "ExistenceCache")
 	if ec != nil {
-		lock := structField(ec, "lock")
+		lock := mutexField(ec, "lock")
 		var guards []LockGuard
 		if st, ok := ec.Underlying().(*types.Struct); ok {
 			for i := 0; i < st.NumFields(); i++ {
